@@ -7,13 +7,14 @@
 (* One action Assign(t) per request, at the grain of the code: consistency check of user M values,           *)
 (* slot ordering (order_slots), the four (N, M) cases of compute_n_m evaluated on a COPY of the aggregated   *)
 (* occupancy of the path, blocking decision, and only then the write on every OMS of the path.               *)
-(* First-fit is deterministic, so the model predicts the exact result of every request.                      *)
+(* First-fit and last-fit are deterministic, so the model predicts the exact result of every request.        *)
 EXTENDS FlexGrid, TLC
 
 CONSTANTS NMin, NMax,         \* index axis of every OMS map (n_min..n_max after alignment)
           IdxMin, IdxMax,     \* guard-band limits: an assigned slot must lie inside IdxMin..IdxMax
           OMS,                \* set of OMS identifiers
-          Unusable            \* [OMS -> SUBSET Slots] indices outside the OMS's amplifier band(s)
+          Unusable,           \* [OMS -> SUBSET Slots] indices outside the OMS's amplifier band(s)
+          Policy              \* "first_fit" | "last_fit": which of the feasible positions a free N takes (select_candidate)
 
 Slots == NMin..NMax
 
@@ -23,9 +24,11 @@ BusyOn(oc, path) == UNION {oc[o] \cup Unusable[o] : o \in path}
 OkAt(busy, n, m) == /\ m > 0
                     /\ FreeRun(Slots, busy, n - m, n + m - 1)
                     /\ n - m >= IdxMin /\ n + m - 1 <= IdxMax
-\* spectrum_selection with requested_n = None, first_fit: lowest start index whose 2m run is free and inside guards
-FirstFit(busy, m) == LET C == {a \in Slots : FreeRun(Slots, busy, a, a + 2 * m - 1) /\ a >= IdxMin /\ a + 2 * m - 1 <= IdxMax}
-                     IN IF C = {} THEN NONE ELSE SetMin(C) + m
+\* spectrum_selection with requested_n = None: the candidates are the start indices whose 2m run is free and inside the
+\* guards; first_fit takes the lowest one, last_fit the highest one
+Candidates(busy, m) == {a \in Slots : FreeRun(Slots, busy, a, a + 2 * m - 1) /\ a >= IdxMin /\ a + 2 * m - 1 <= IdxMax}
+FirstFit(busy, m) == LET C == Candidates(busy, m)
+                     IN IF C = {} THEN NONE ELSE (IF Policy = "last_fit" THEN SetMax(C) ELSE SetMin(C)) + m
 \* determine_slot_numbers: N fixed, M free: largest multiple of pcm (<= need) that is symmetrically free around n,
 \* every smaller multiple being free too (the code grows step by step)
 Grow(busy, n, need, pcm) ==
